@@ -382,7 +382,7 @@ class ReturnStmt(Stmt):
             self.canonical_target = target
 
     def __repr__(self):
-        if self.target:
+        if self.target is not None:
             target = f' {self.target}'
         else:
             target = ''
